@@ -179,3 +179,63 @@ package plan
 //@   loop 0 invariant r != nil && fresh(r) && r.AffectedRows == arsum(rs, rangeindex + 1) && r.Status == stor(rs, rangeindex + 1) && r.InsertID == minid(rs, rangeindex + 1)
 //@   loop 0 assigns r.AffectedRows, r.Status, r.InsertID
 //@   ensures ret1 == nil && ret0 != nil && ret0.AffectedRows == arsum(rs, len(rs)) && ret0.Status == stor(rs, len(rs)) && ret0.InsertID == minid(rs, len(rs))
+
+// ---------------------------------------------------------------- C04 global tables: writes reach every copy, reads touch one
+//@ trusted math/rand.Intn
+//@   params n
+//@   requires n > 0
+//@   pure-call
+//@   ensures 0 <= ret0 && ret0 < n
+//@ trusted (github.com/XiaoMi/Gaea/parser/ast.StmtNode).Restore
+//@   params recv, ctx
+//@   pure-call
+//@ trusted (*github.com/XiaoMi/Gaea/proxy/router.Router).GetShardRule
+//@   params recv, db, table
+//@   pure-call
+//@   ensures ret1 ==> ret0 != nil
+//@ trusted (*strings.Builder).String
+//@   params recv
+//@   pure-call
+//@ trusted github.com/XiaoMi/Gaea/parser/format.NewRestoreCtx
+//@   params flags, in
+//@   pure-call
+//@ func (*RouteResult).HasNext
+//@   requires r != nil
+//@   assigns \nothing
+//@   ensures ret0 <==> r.currentIndex < len(r.indexes)
+//@ func (*RouteResult).Next
+//@   requires r != nil && 0 <= r.currentIndex && r.currentIndex < len(r.indexes)
+//@   assigns r.currentIndex
+//@   ensures ret0 == r.indexes[old(r.currentIndex)] && r.currentIndex == old(r.currentIndex) + 1
+//@ func (*RouteResult).Reset
+//@   requires r != nil
+//@   assigns r.currentIndex
+//@   ensures r.currentIndex == 0
+//@ property C04: (*RouteResult).HasNext, (*RouteResult).Next, (*RouteResult).Reset, postHandleGlobalTableRouteResultInQuery, postHandleGlobalTableRouteResultInModify, generateShardingSQLs
+
+// a SELECT over global tables only is routed to exactly ONE copy (a valid position in the rule's copy list)
+//@ func postHandleGlobalTableRouteResultInQuery
+//@   requires p != nil && p.result != nil && forall(t string, has(p.globalTableRules, t) ==> p.globalTableRules[t] != nil)
+//@   loop 0 invariant iterations() == 0
+//@   ensures case oneCopy: old(len(p.tableRules) == 0 && len(p.globalTableRules) != 0) ==> len(p.result.indexes) == 1 && exists(t string, has(p.globalTableRules, t) && p.result.table == t && p.result.db == ruleDB(p.globalTableRules[t]) && 0 <= p.result.indexes[0] && p.result.indexes[0] < len(subTables(p.globalTableRules[t])))
+//@   ensures case untouched: !old(len(p.tableRules) == 0 && len(p.globalTableRules) != 0) ==> p.result.indexes == old(p.result.indexes) && p.result.table == old(p.result.table) && p.result.db == old(p.result.db)
+// an INSERT / UPDATE / DELETE over global tables only is routed to EVERY copy of the table
+//@ func postHandleGlobalTableRouteResultInModify
+//@   requires p != nil && p.result != nil && forall(t string, has(p.globalTableRules, t) ==> p.globalTableRules[t] != nil)
+//@   loop 0 invariant iterations() == 0
+//@   ensures case allCopies: old(len(p.tableRules) == 0 && len(p.globalTableRules) != 0) ==> exists(t string, has(p.globalTableRules, t) && p.result.table == t && p.result.db == ruleDB(p.globalTableRules[t]) && p.result.indexes == subTables(p.globalTableRules[t]))
+//@   ensures case untouched: !old(len(p.tableRules) == 0 && len(p.globalTableRules) != 0) ==> p.result.indexes == old(p.result.indexes) && p.result.table == old(p.result.table) && p.result.db == old(p.result.db)
+
+// one statement text is rendered per routed table index -- no index is skipped or rendered twice -- and filed under the slice and
+// physical database the rule names for that index; the cursor is reset for the next use
+//@ ghost rendered int
+//@ func generateShardingSQLs
+//@   requires result != nil && router != nil && result.currentIndex == 0 && len(result.indexes) < 1<<30
+//@   ghost-update at entry: rendered = 0
+//@   ghost-update after call String#0: rendered = rendered + 1
+//@   loop 0 invariant 0 <= result.currentIndex && result.currentIndex <= len(result.indexes) && rendered == result.currentIndex && result.indexes == old(result.indexes) && fresh(ret) && forall(k string, has(ret, k) ==> ret[k] != nil && fresh(ret[k])) && forall(k string, forall(d string, has(ret, k) && has(ret[k], d) ==> ret[k][d] == nil || fresh(ret[k][d])))
+//@   loop 0 assigns result.currentIndex
+//@   assert at call GetSliceIndexFromTableIndex#0: arg1 == result.indexes[result.currentIndex - 1]
+//@   assert at call GetDatabaseNameByTableIndex#0: arg1 == result.indexes[result.currentIndex - 1]
+//@   assert at call GetSlice#0: arg1 == sliceIdxOf(arg0, result.indexes[result.currentIndex - 1])
+//@   ensures case everyCopy: ret1 == nil ==> rendered == len(result.indexes) && result.currentIndex == 0 && result.indexes == old(result.indexes)
